@@ -1684,6 +1684,17 @@ func (e *Engine) effectsOf(fn *ssa.Function, name string, busy map[*ssa.Function
 				out[strings.TrimPrefix(a, "effect:")] = true
 			}
 		}
+		// `attr absorbs:<e>`: this function may reach effect e itself but its callers do not inherit it (a sanctioned
+		// gateway, e.g. the store helpers that are the only ones allowed to call Bucket.Put)
+		absorbs := false
+		for a := range sp.Attrs {
+			if strings.HasPrefix(a, "absorbs:") {
+				absorbs = true
+			}
+		}
+		if absorbs {
+			return out
+		}
 		if fn == nil || !e.inRepo(fn) || len(out) > 0 || sp.HasMod {
 			return out
 		}
@@ -1745,7 +1756,10 @@ func (fr *Frame) effectCheckCallee(callee *ssa.Function, name string) {
 		if e.topSpec != nil && e.topSpec.Attrs["effect:"+k] {
 			declared = true
 		}
-		if fr.spec != nil && fr.spec.Attrs["effect:"+k] {
+		if fr.spec != nil && (fr.spec.Attrs["effect:"+k] || fr.spec.Attrs["absorbs:"+k]) {
+			declared = true
+		}
+		if e.topSpec != nil && e.topSpec.Attrs["absorbs:"+k] {
 			declared = true
 		}
 		if !declared {
